@@ -85,7 +85,7 @@ def replay_vc(prop, vc, unit, driver):
     c = contracts.REGISTRY.get(ukey.split("#")[0])
     clause = vc["name"].rsplit("/", 1)[-1]
     if c is not None and "#" not in ukey and vc.get("witness") and (
-            clause == "raises_only" or c.clause(clause) is not None):
+            clause.endswith("raises_only") or c.clause(clause) is not None):
         w = vc["witness"]
         info = units.get_world().func(c.key)
         argnames = [a.arg for a in info.node.args.args]
@@ -99,6 +99,16 @@ def replay_vc(prop, vc, unit, driver):
                         variants.append({k: enc(x) for k, x in v.items()})
                 except Exception as e:      # noqa
                     rec["repair_error"] = repr(e)
+            if c.samples is not None and len(argnames) <= 4:
+                # the contract's own sample inputs as further candidates (a search on the real code, e.g. for text
+                # the solver model cannot pin down: invalid UTF-16, odd lengths)
+                try:
+                    from .native import enc
+                    for smp in c.samples():
+                        if len(smp) == len(argnames):
+                            variants.append({n: enc(x) for n, x in zip(argnames, smp)})
+                except Exception as e:      # noqa
+                    rec["samples_error"] = repr(e)
             extra = {k: x for k, x in w.items() if k not in argnames}
             tasks = [{"op": "clause", "sidecar": c.sidecar, "key": c.key, "clause": clause, "argnames": argnames,
                       "args": [v[n] for n in argnames], "extra": extra} for v in variants]
@@ -332,10 +342,10 @@ def run_property(prop, tier):
           f"undecided={len(undecided)} known_findings={len(known_reported)} paths={paths} wall={wall:.1f}s")
     if os.environ.get("PYVC_NAMES"):
         json.dump(sorted(set(all_names)), open(os.environ["PYVC_NAMES"], "w"))
+    if violations:
+        return 1          # a confirmed violation stands even if another unit could not be run
     if crashed:
         return 3
-    if violations:
-        return 1
     if undecided:
         return 2
     return 0
